@@ -5,8 +5,13 @@
     that channel"; every macro keyword type has a dispatch arm; statements that end in ';'
     pre-load the ';' expectation.  An [ExpectSymbol] mode always produces its token (real or
     virtual, see lex_expected_token / finalize_lexing in Model/Lexer3.v).  Balance of string
-    expressions, datalines triples and label colons over all inputs is tested by the oracle. *)
+    expressions, datalines triples and label colons over all inputs is tested by the oracle.
+    For macro-free texts (release profile) [C10_macro_free_groups] proves the grouping outright: no
+    string-expression or label token occurs at all (every quoted text is one literal token), and every
+    datalines start is followed at once by its data token and its terminator ([grp_okb], a decision
+    procedure over the type sequence; corollary of the C11 simulation). *)
 From Coq Require Import NArith List Bool.
+From SasLexer Require Import Model.Core Model.Lexer3 Spec.RefLex Proofs.RefLexTiling Proofs.RefLexShape Proofs.OcBase Proofs.OcWhole Proofs.OcAll.
 From SasLexer Require Import Gen.TokenType Gen.ErrorKind Gen.Channel Model.Base Model.Core Model.Helpers Model.Lexer2 Proofs.Tables.
 Import ListNotations.
 
@@ -21,3 +26,22 @@ Proof. exact every_subset_type_has_arm. Qed.
 
 Theorem C10_statement_semicolons_preloaded : stat_preload_bottom_semi = true.
 Proof. exact stat_preloads_end_in_semi. Qed.
+
+Theorem C10_macro_free_groups : forall (msep : bool) (src : list char),
+  macro_free (body_of src) = true ->
+  grp_okb (map t_type (b_toks (lr_buffer (lex (mkCfg false msep) src)))) = true.
+Proof.
+  intros msep src H. pose proof (lex_is_reflex_macro_free msep src H) as G. cbv zeta in G.
+  pose proof (reflex_shape src) as Sh.
+  destruct (reflex src) as [[T E] lit]. destruct G as (_ & _ & G3 & _). destruct Sh as [Hg _].
+  assert (K : map t_type (b_toks (lr_buffer (lex (mkCfg false msep) src))) = map rt_type T).
+  { pose proof (f_equal (map (fun x : TokenType * TokenChannel * N * payload => fst (fst (fst x)))) G3) as K. rewrite !map_map in K. exact K. }
+  rewrite K. exact Hg.
+Qed.
+Print Assumptions C10_macro_free_groups.
+
+(** what [grp_okb] decides, on examples *)
+Example c10_grp_examples :
+  grp_okb [T_DatalinesStart; T_DatalinesData; T_SEMI; T_EOF] = true /\
+  grp_okb [T_DatalinesStart; T_SEMI] = false /\ grp_okb [T_StringExprStart; T_EOF] = false.
+Proof. vm_compute. repeat split; reflexivity. Qed.
